@@ -117,6 +117,13 @@ class PathT:
                 p.get_data(warm[0]) if not self.has_src else p.get_data()
             except Exception:
                 pass
+        if getattr(self, "warm_spec", False) and self.mods:
+            # ... or already been serialised: what a derived path is written as must not depend on that either
+            for f in ("to_spec", "to_part_specs", "simplify"):
+                try:
+                    getattr(p, f)()
+                except Exception:
+                    pass
         for m in self.mods:
             p = getattr(p, m)()
         return p
